@@ -16,6 +16,7 @@ mod stepbudget;
 mod parsework;
 mod pathnorm;
 mod prog;
+mod jsonmap;
 
 fn main() {
     let args: Vec<String> = std::env::args().collect();
@@ -33,6 +34,7 @@ fn main() {
         "entry" => entry::main(&rest),
         "lifecycle" => lifecycle::main(&rest),
         "prog" => prog::main(&rest),
+        "jsonmap" => jsonmap::main(&rest),
         "modules" => modules::main(&rest),
         "orders" => orders::main(&rest),
         "gcmiri" => gcmiri::main(&rest),
